@@ -105,8 +105,12 @@ def run_config(ctx, rep, cfg, F):
                 if not (zero and zero[0] == "EQ"):
                     rep.bad("R10.3", short, "clear-without-zero", "%s empties the map although the selector is not known to be the zero-length "
                             "prefix (inputs: %s)" % (short, ins), config=cfg)
+                elif not g.free_cleared or not any(o == ("arena.push", "0") for o in g.order):
+                    rep.bad("R10.3", short, "partial-clear", "%s empties the arena for a zero-length selector but %s: slots released by earlier removals would be "
+                            "handed out again although they no longer exist (later insertions corrupt or panic)"
+                            % (short, "keeps the free list" if not g.free_cleared else "does not re-create the root"), config=cfg)
                 else:
-                    rep.ok("R10.3", short, "zero-length selector clears")
+                    rep.ok("R10.3", short, "zero-length selector clears arena, free list and root")
                 continue
             touched = [(e.kind, e["node"]) for e in p.events if e.kind in ("value_write", "link_write", "prefix_write")]
             if T is None:
